@@ -635,7 +635,7 @@ Theorem C03_atomic_new_goodS :
        me < length cs ->
        length cs <= MAX_THREADS ->
        clk cs me = c0 ->
-       1 <= vv_get c0 me ->
+       1 <= vv_get c0 me \/ (forall q : nat, vv_get c0 q = 0) ->
        (forall t : nat, t < length cs -> t < length (clk cs t)) ->
        (forall u t : nat,
         u < length cs -> t < length cs -> vv_get (clk cs u) t <= vv_get (clk cs t) t) ->
@@ -808,7 +808,7 @@ Print Assumptions C03_bstep_out.
 
 Require Import LV.Base LV.VV LV.VVFacts LV.Path LV.PathSpec LV.PathTerm LV.PathDistinct LV.PathApi LV.Prog LV.Objects LV.Exec LV.Atomic LV.Ops LV.Check LV.AtomicFacts LV.AtomicCoherence LV.AtomicCoRR LV.AtomicClosure LV.AtomicBridge LV.NotifyFacts LV.ClockFacts LV.SyncMono LV.AtomicRun.
 
-(* OVER EXECUTIONS OF THE MODEL L (AtomicRun.v): along SyncMono.steps -- arbitrary interleavings of the micro-operations of all threads, scheduling and spawn included -- the invariant of one atomic cell is preserved. Remaining hypotheses, stated in the theorems: the invariant on the first state (the declared atomics start with the all-zero clock, which the invariant's `key >= 1` clause excludes: to be weakened), and AccSide (every access micro-operation on the cell is a machine step: proved by the six _is_step lemmas from `replayed index is a candidate`, `t_rel <= t_caus`, `ring not full`) *)
+(* OVER EXECUTIONS OF THE MODEL L (AtomicRun.v): along SyncMono.steps -- arbitrary interleavings of the micro-operations of all threads, scheduling and spawn included -- the invariant of one atomic cell is preserved. The headline (run_goodAt) starts at init_exec; its remaining hypotheses (RunOK) are stated in the theorem: at every access to the cell the replayed index is a candidate (an exploration-level fact), the ring has not wrapped, t_rel <= t_caus and the thread id is below MAX_THREADS (the last two are not yet proved as execution invariants) *)
 (* THE FRAME LEMMA: every micro-operation that is not an access to atomic a (scheduling, park, yield, every operation on other objects and other atomics, fences, spawn, termination: one tactic over all 77 micro-operations) keeps a's stores, count and mutating flag *)
 Theorem C03_exec_micro_akeep :
   forall (a : nat) (e : exec) (me : nat) (m : micro),
@@ -900,4 +900,72 @@ Theorem C03_steps_never_none :
         match_load_to_stores s t c ly o <> None) /\ match_rmw_to_stores s <> None.
 Proof. exact steps_never_none. Qed.
 Print Assumptions C03_steps_never_none.
+
+(* the invariant holds for every declared atomic in the initial state of every iteration (init_exec p pa) *)
+Theorem C03_init_goodAt :
+  forall (p : prog) (pa : path) (a : nat) (s : atomic_state),
+       get_atomic (init_exec p pa) a = Some s -> GoodAt a (init_exec p pa).
+Proof. exact init_goodAt. Qed.
+Print Assumptions C03_init_goodAt.
+
+(* all eight access micro-operations (load, fetch_update load, store, RMW, unsync_load, with_mut, the two block_on polls) are steps of the generalised machine under SideOK *)
+Theorem C03_acc_step_is_bstep :
+  forall (a : nat) (e : exec) (me : nat) (m : micro) (e1 : exec) (s : atomic_state)
+         (t0 : thread),
+       acc_on a m ->
+       get_thread e me = Some t0 ->
+       get_atomic e a = Some s ->
+       GoodS (s, pclocks e) ->
+       SideOK a e me ->
+       exec_micro e me m = MOk e1 ->
+       exists (s1 : atomic_state) (b : bop),
+         access_bop b /\
+         me < length (clocks e) /\
+         get_atomic e1 a = Some s1 /\ bstep (s, clocks e) me b = Some (s1, clocks e1).
+Proof. exact acc_step_is_bstep. Qed.
+Print Assumptions C03_acc_step_is_bstep.
+
+(* HEADLINE: for every program p, every recorded path pa, every declared atomic a and every state e reachable from init_exec p pa by steps of the execution model, the invariant of a holds in e -- under RunOK: at every access to a, (i) the replayed index is a candidate, (ii) the ring has not wrapped, (iii) t_rel <= t_caus, (iv) thread id < MAX_THREADS *)
+Theorem C03_run_goodAt :
+  forall (p : prog) (pa : path) (a : nat) (s0 : atomic_state) (e : exec),
+       get_atomic (init_exec p pa) a = Some s0 ->
+       RunOK p pa a -> steps (init_exec p pa) e -> GoodAt a e.
+Proof. exact run_goodAt. Qed.
+Print Assumptions C03_run_goodAt.
+
+(* hence RMW atomicity in every reachable state of every execution *)
+Theorem C03_run_atomicity :
+  forall (p : prog) (pa : path) (a : nat) (s0 : atomic_state) (e : exec) 
+         (s : atomic_state) (r sl sid : nat),
+       get_atomic (init_exec p pa) a = Some s0 ->
+       RunOK p pa a ->
+       steps (init_exec p pa) e ->
+       get_atomic e a = Some s ->
+       r < at_cnt s ->
+       st_rmw_src (get_store s r) = Some (sl, sid) ->
+       sl < at_cnt s /\
+       vv_lt (mo s sl) (mo s r) = true /\
+       (forall x : nat, x < at_cnt s -> vv_lt (mo s sl) (mo s x) && vv_lt (mo s x) (mo s r) = false).
+Proof. exact run_atomicity. Qed.
+Print Assumptions C03_run_atomicity.
+
+(* and loom's assert_ne never fires in any reachable state *)
+Theorem C03_run_never_none :
+  forall (p : prog) (pa : path) (a : nat) (s0 : atomic_state) (e : exec) (s : atomic_state),
+       get_atomic (init_exec p pa) a = Some s0 ->
+       RunOK p pa a ->
+       steps (init_exec p pa) e ->
+       get_atomic e a = Some s ->
+       (forall (t : nat) (c : vv) (ly : option nat) (o : ord),
+        match_load_to_stores s t c ly o <> None) /\ match_rmw_to_stores s <> None.
+Proof. exact run_never_none. Qed.
+Print Assumptions C03_run_never_none.
+
+(* the atomic is never removed *)
+Theorem C03_run_atomic_exists :
+  forall (p : prog) (pa : path) (a : nat) (s0 : atomic_state) (e : exec),
+       get_atomic (init_exec p pa) a = Some s0 ->
+       RunOK p pa a -> steps (init_exec p pa) e -> exists s : atomic_state, get_atomic e a = Some s.
+Proof. exact run_atomic_exists. Qed.
+Print Assumptions C03_run_atomic_exists.
 
